@@ -105,6 +105,42 @@ CLAIMED = {
              "root dimension fail already in the pinned suite); target "
              "templates never collide; no faults injected (none in the "
              "property); periods avoid file boundaries."),
+    "C01": dict(
+        category="exploration", design_ref="DESIGN.md 3/C01",
+        technique="deterministic simulation: seeded create/delete/query "
+                  "histories on a simulated fsspec file system with tape-ordered "
+                  "listings, checked against a brute-force filter over the "
+                  "harness's own file list",
+        text="FileSet(fs=SimFS) - and the same tree on LocalFileSystem and in a "
+             "ZipFileSystem - is driven through histories of file creation/"
+             "deletion, cache resets, time_coverage changes and find/in/len/"
+             "to_dataframe queries (boundary-biased periods, sort, only_path, "
+             "bundles, white/black filters, excluded names and periods) over "
+             "tape-drawn templates with 0-4 directory levels; every answer is "
+             "compared with the property's predicate evaluated on coverages "
+             "derived by an independent name model. The simulator decides the "
+             "storage/listing/history part; the alignment space is sampled.",
+        note="Files always satisfy the stated preconditions (directory of the "
+             "start time, duration <= finest directory period); templates carry "
+             "a complete start date; fsspec's glob sorts listings, so listing "
+             "order reaches typhon only through that layer."),
+    "C16": dict(
+        category="exploration", design_ref="DESIGN.md 3/C16",
+        technique="deterministic simulation: seeded create/delete/query "
+                  "histories on the simulated file system, find_closest and "
+                  "fileset[t] checked against the property's covering/nearest "
+                  "rule over the harness's own file list",
+        text="Same simulated storage and generators as C01; timestamps are "
+             "drawn inside files, in gaps, on boundaries and one resolution "
+             "step beside them, far outside, in empty directories, with "
+             "filters and exclusions; the returned file must be eligible, "
+             "must contain t if an eligible file in the +-one-directory-period "
+             "neighbourhood does, else be at minimal endpoint distance; "
+             "absence must be reported as NoFilesError/None.",
+        note="Timestamps at name resolution; neighbourhood = finest temporal "
+             "directory level (31 d month, 366 d year / non-temporal directory "
+             "part), all files without sub directory; ties may go either way; "
+             "timestamp space sampled."),
 }
 
 NOT_APPLICABLE = {
